@@ -122,6 +122,9 @@ func (e *EvalCtx) ident(name string) Val {
 			key := "$g:" + name
 			arr := e.c.heapGet(e.heap, key, g.Sort)
 			t := fmt.Sprintf("(select %s 0)", arr)
+			if strings.HasPrefix(g.Sort, "(Array ") {
+				return sortVal(g.Sort, t)
+			}
 			switch g.Sort {
 			case "Bool":
 				return boolVal(t)
@@ -307,6 +310,9 @@ func (e *EvalCtx) field(x Val, f string) Val {
 		return e.fail("no field %s in %s", f, et)
 	case KIface:
 		tk := typeKey(x.Typ)
+		if tk == "net/http.Flusher" || tk == "net/http.Hijacker" {
+			tk = "net/http.ResponseWriter" // optional interfaces of the same writer object share its abstract state
+		}
 		if g := e.ghostField(tk, f); g != nil {
 			key := tk + ".$" + f
 			arr := e.c.heapGet(e.heap, key, g.Sort)
@@ -331,6 +337,13 @@ func (e *EvalCtx) field(x Val, f string) Val {
 		switch f {
 		case "base":
 			return intVal(x.T)
+		}
+	case KMap:
+		tk := typeKey(x.Typ)
+		if g := e.ghostField(tk, f); g != nil {
+			key := tk + ".$" + f
+			arr := e.c.heapGet(e.heap, key, g.Sort)
+			return sortVal(g.Sort, fmt.Sprintf("(select %s %s)", arr, x.T))
 		}
 	}
 	return e.fail("field %s on %v", f, x)
@@ -590,6 +603,21 @@ func (e *EvalCtx) call(n ECall) Val {
 			return boolVal(boolT(types.Implements(a.Dyn, t.Underlying().(*types.Interface))))
 		}
 		return boolVal(fmt.Sprintf("(and (not (= %s 0)) %s)", a.T, e.c.eng.implementsPred(e.c, a.T, t)))
+	case "gfield": // gfield(ref, Type.field): ghost field of the object with reference ref
+		a := arg(0)
+		path := exprString(n.Args[1])
+		i := strings.LastIndex(path, ".")
+		tk := e.c.eng.qualType(pkgDirOf(e.pkg), path[:i])
+		g := e.ghostField(tk, path[i+1:])
+		if g == nil {
+			e.fail("no ghost field %s", path)
+		}
+		ref := a.T
+		if a.K == KIface {
+			ref = a.IVal
+		}
+		arr := e.c.heapGet(e.heap, tk+".$"+path[i+1:], g.Sort)
+		return sortVal(g.Sort, fmt.Sprintf("(select %s %s)", arr, ref))
 	case "typetag":
 		t := e.c.eng.parseType(e.pkg, exprString(n.Args[0]))
 		if t == nil {
@@ -602,6 +630,14 @@ func (e *EvalCtx) call(n ECall) Val {
 			return intVal(a.IVal)
 		}
 		return intVal(a.T)
+	case "asiface": // asiface(ref, I): the object with reference ref viewed through interface type I
+		a := arg(0)
+		t := e.c.eng.parseType(e.pkg, exprString(n.Args[1]))
+		ref := a.T
+		if a.K == KIface {
+			ref = a.IVal
+		}
+		return Val{K: KIface, T: e.c.fresh("dyn", "Int"), IVal: ref, IStr: "\"\"", Typ: t}
 	case "asptr": // asptr(x, *T): view interface payload as *T
 		a := arg(0)
 		t := e.c.eng.parseType(e.pkg, exprString(n.Args[1]))
@@ -905,6 +941,14 @@ func (c *FnCtx) finishContractOld(p *Path, fc *FuncContract, fn *ssa.Function, r
 	for _, m := range fc.Modifies {
 		c.havocLoc(p, pre, m)
 	}
+	var uniPost []func(q *Path)
+	for _, un := range fc.Universal {
+		w, ok := env[un]
+		if !ok {
+			continue
+		}
+		uniPost = append(uniPost, c.universalClient(p, pre, w, name, &old))
+	}
 	readsClock := false
 	for _, cl := range append(append([]Clause{}, fc.Ensures...), fc.EnsuresP...) {
 		if strings.Contains(cl.Src, "now()") {
@@ -920,6 +964,9 @@ func (c *FnCtx) finishContractOld(p *Path, fc *FuncContract, fn *ssa.Function, r
 		}
 	}
 	mk := func(q *Path, clauses []Clause) {
+		for _, f := range uniPost {
+			f(q)
+		}
 		post := &EvalCtx{c: c, p: q, env: env, heap: &q.heap, old: &old, oldNow: oldNow, pkg: pkg, ghostOld: ghostOld, callsOv: callsOv, retOv: retOv}
 		for _, cl := range clauses {
 			if cl.Seq && c.mode != "seq" {
@@ -1039,10 +1086,10 @@ func (c *FnCtx) resolveLoc(p *Path, ec *EvalCtx, loc string) (out []locTarget) {
 	}
 	head, f := loc[:i], loc[i+1:]
 	first := head
-	if j := strings.IndexAny(head, ".["); j >= 0 {
+	if j := strings.IndexAny(head, ".["); j >= 0 && !strings.Contains(head[:j], "(") {
 		first = head[:j]
 	}
-	if _, isVar := ec.env[first]; isVar {
+	if _, isVar := ec.env[first]; isVar || strings.Contains(first, "(") {
 		x, err := ParseExpr(head)
 		if err != nil {
 			panic(contractError{err.Error()})
@@ -1055,8 +1102,13 @@ func (c *FnCtx) resolveLoc(p *Path, ec *EvalCtx, loc string) (out []locTarget) {
 			if et := derefType(v.Typ); et != nil && kindOf(et) == KStruct {
 				prefix = c.addrKey(v)
 			}
+		case KMap:
+			prefix, ref = typeKey(v.Typ), v.T
 		case KIface:
 			prefix, ref = typeKey(v.Typ), v.IVal
+			if prefix == "net/http.Flusher" || prefix == "net/http.Hijacker" {
+				prefix = "net/http.ResponseWriter"
+			}
 		default:
 			panic(contractError{"modifies: " + head + " is not an object"})
 		}
@@ -1201,3 +1253,91 @@ func (c *FnCtx) monitorRelease(p *Path, key string, m Val, mode int) {
 }
 
 var _ = ssa.Function{}
+
+// universalClient: the callee may call any methods of object w any number of times. If w is a Helios wrapper
+// (dynamic type known on this path) its object invariant must hold now, its fields and the abstract state of
+// the writer it wraps become unknown, and the invariant holds again afterwards (every method is separately
+// proved to preserve it). For an abstract ResponseWriter only the net/http stability facts remain.
+func (c *FnCtx) universalClient(p *Path, pre *EvalCtx, w Val, name string, old *HeapView) func(q *Path) {
+	rwKey := "net/http.ResponseWriter"
+	stab := func(q *Path, ref string) {
+		get := func(h *HeapView, f, srt string) string {
+			return fmt.Sprintf("(select %s %s)", c.heapGet(h, rwKey+".$"+f, srt), ref)
+		}
+		q.assume(fmt.Sprintf("(=> %s (and %s (= %s %s)))", get(old, "committed", "Bool"), get(&q.heap, "committed", "Bool"), get(&q.heap, "status", "Int"), get(old, "status", "Int")))
+		q.assume(fmt.Sprintf("(>= %s %s)", get(&q.heap, "bodyLen", "Int"), get(old, "bodyLen", "Int")))
+		q.assume(fmt.Sprintf("(=> %s %s)", get(old, "hijacked", "Bool"), get(&q.heap, "hijacked", "Bool")))
+	}
+	havocRW := func(ref string) {
+		for _, f := range []string{"committed", "status", "bodyLen", "hijacked", "flushes"} {
+			srt := "Int"
+			if f == "committed" || f == "hijacked" {
+				srt = "Bool"
+			}
+			c.heapGet(&p.heap, rwKey+".$"+f, srt)
+			c.havoc(&p.heap, rwKey+".$"+f, ref)
+		}
+	}
+	if w.K != KIface {
+		return func(q *Path) {}
+	}
+	if w.Dyn == nil || w.DynV == nil || w.DynV.K != KPtr || !isHeliosPkg(typePkg(derefType(w.Dyn))) {
+		havocRW(w.IVal)
+		return func(q *Path) { stab(q, w.IVal) }
+	}
+	self := *w.DynV
+	st := derefType(w.Dyn)
+	inv := c.objInvOf(pre, w)
+	c.oblige(p, "pre", shortName(name)+".object_invariant_of_"+shortName(typeKey(st)), inv, "the wrapper handed to the inner handler satisfies its object invariant", nil)
+	p.assume(inv)
+	// underlying writer: the embedded http.ResponseWriter field
+	var under *Val
+	if s := structOf(st); s != nil {
+		for i := 0; i < s.NumFields(); i++ {
+			if s.Field(i).Embedded() && kindOf(s.Field(i).Type()) == KIface {
+				ptr := Val{K: KPtr, T: self.T, Typ: types.NewPointer(s.Field(i).Type()), Key: c.addrKey(self) + "." + s.Field(i).Name()}
+				u := c.load(p, &p.heap, ptr, s.Field(i).Type())
+				under = &u
+			}
+		}
+	}
+	tk := c.addrKey(self)
+	if s := structOf(st); s != nil {
+		for i := 0; i < s.NumFields(); i++ {
+			f := s.Field(i)
+			if f.Embedded() && kindOf(f.Type()) == KIface {
+				continue // the wrapped writer itself is never reassigned by the methods (checked by their frames)
+			}
+			if !c.eng.someMethodModifies(st, f.Name()) {
+				continue // no method's frame allows writing this field
+			}
+			for _, l := range leavesOf(f.Type()) {
+				c.heapGet(&p.heap, tk+"."+f.Name()+l.Path, l.Sort)
+			}
+			c.havoc(&p.heap, tk+"."+f.Name(), self.T)
+		}
+	}
+	for _, g := range c.eng.cs.GFields {
+		if c.eng.qualType(g.Pkg, g.Type) == typeKey(st) && c.eng.someMethodModifies(st, g.Name) {
+			c.heapGet(&p.heap, tk+".$"+g.Name, g.Sort)
+			c.havoc(&p.heap, tk+".$"+g.Name, self.T)
+		}
+	}
+	if under != nil {
+		havocRW(under.IVal)
+	}
+	return func(q *Path) {
+		if under != nil {
+			stab(q, under.IVal)
+		}
+		ec := &EvalCtx{c: c, p: q, env: pre.env, heap: &q.heap, pkg: pre.pkg}
+		q.assume(c.objInvOf(ec, w))
+	}
+}
+
+func typePkg(t types.Type) *types.Package {
+	if n, ok := types.Unalias(t).(*types.Named); ok {
+		return n.Obj().Pkg()
+	}
+	return nil
+}
